@@ -93,6 +93,42 @@ def documented_score(est, X, y, batch_size=None):
     return float(tot / len(X))
 
 
+def find_function(name):
+    """The function object bound to `name` in the loaded gemclus modules (wherever it is defined now)."""
+    import sys
+    f = getattr(B, name, None)
+    if callable(f):
+        return f
+    for mn, mod in list(sys.modules.items()):
+        if mod is not None and (mn == "gemclus" or mn.startswith("gemclus.")) and callable(getattr(mod, name, None)):
+            return getattr(mod, name)
+    return None
+
+
+def patch_everywhere(func, wrapper):
+    """Rebind every name of every loaded gemclus.* module that refers to the function object `func` (its defining
+    module, modules that imported it, aliases) -- callers resolve the name in their own module globals, so where the
+    function lives does not matter.  Returns the list to hand to unpatch()."""
+    import sys
+    done = []
+    for mn, mod in list(sys.modules.items()):
+        if mod is None or not (mn == "gemclus" or mn.startswith("gemclus.")):
+            continue
+        d = getattr(mod, "__dict__", None)
+        if not isinstance(d, dict):
+            continue
+        for nm, val in list(d.items()):
+            if val is func:
+                d[nm] = wrapper
+                done.append((d, nm))
+    return done
+
+
+def unpatch(done, func):
+    for d, nm in done:
+        d[nm] = func
+
+
 def run_traced(est, X, y, kwargs, wall):
     """Run est.path(X, y, **kwargs) with compute_val_score and est._batchify wrapped.  Returns a dict with the
     events, the outcome ('returned' / 'timeout' / exception class name), the result tuple, the warnings.
@@ -100,7 +136,7 @@ def run_traced(est, X, y, kwargs, wall):
     so keyword calls or new defaulted parameters of the wrapped functions are harmless."""
     events = []
     trained = [False]
-    orig_cvs = B.compute_val_score
+    orig_cvs = find_function("compute_val_score")
     orig_batchify = est._batchify
     out = {"events": events, "outcome": None, "result": None, "error": None, "doc_init": None, "doc_init_full": None, "foreign_calls": 0}
 
@@ -144,7 +180,8 @@ def run_traced(est, X, y, kwargs, wall):
         return ret
 
     est._batchify = rec_batchify
-    B.compute_val_score = rec_cvs
+    patched = patch_everywhere(orig_cvs, rec_cvs) if orig_cvs is not None else []
+    out["recorder_sites"] = len(patched)
     t0 = time.time()
     old = signal.signal(signal.SIGALRM, _alarm)
     _Timer.fired = False
@@ -174,13 +211,13 @@ def run_traced(est, X, y, kwargs, wall):
         _Timer.armed = False
         signal.setitimer(signal.ITIMER_REAL, 0)
         signal.signal(signal.SIGALRM, old)
-        B.compute_val_score = orig_cvs
+        unpatch(patched, orig_cvs)
         if had_inst:
             est.__dict__["_batchify"] = orig_batchify       # keep the caller's decoration
         else:
             est.__dict__.pop("_batchify", None)
     out["wall"] = time.time() - t0
-    out["final_w"] = snap(est) if hasattr(est, "n_features_in_") and events else None
+    out["final_w"] = snap(est) if hasattr(est, "n_features_in_") else None
     return out
 
 
@@ -400,6 +437,52 @@ def slim(case):
     return {k: v for k, v in case.items()}
 
 
+def unpenalised_fit_weights(est, X, y):
+    """Weights of an independent fit of the same configuration with alpha = 0 (what path() starts from)."""
+    from sklearn.base import clone
+    ref = clone(est).set_params(alpha=0)
+    with warnings.catch_warnings():
+        warnings.simplefilter("ignore")
+        ref.fit(X, y)
+    return snap(ref)
+
+
+def check_zero_steps(chk, case, est, X, y, run, replay):
+    """No step recorded: the returned best weights must be those of the unpenalised initial fit (recomputed independently)."""
+    if case.get("mlcl"):       # a clone would lose the decoration
+        return
+    try:
+        want = unpenalised_fit_weights(est, X, y)
+    except Exception:  # noqa
+        return
+    if not same_weights(run["result"][0], want):
+        chk.fail("path:zero-steps-not-unpenalised-fit", "path() recorded no step but the returned best weights are not those of the initial fit "
+                 "with alpha = 0 (independent fit of the same configuration)", replay, layer="L3")
+
+
+def oracle_without_trace(chk, case, est, X, y, run, replay):
+    """The part of the contract that needs no trace: history lengths, alpha schedule, zero-step rule."""
+    try:
+        best_w, geminis, pens, alphas, nfeat = run["result"]
+    except Exception:  # noqa
+        chk.fail("path:return-shape", "path() did not return the 5-tuple (best_weights, geminis, penalties, alphas, n_features)", replay, layer="L3")
+        return
+    T = len(alphas)
+    if not (len(geminis) == len(pens) == len(nfeat) == T):
+        chk.fail("path:lengths", f"history lengths differ: {len(geminis)}, {len(pens)}, {T}, {len(nfeat)}", replay, layer="L3")
+        return
+    mult = case.get("alpha_multiplier", "absent")
+    mult = 1.05 if mult == "absent" or mult <= 1 else mult
+    if T and float(alphas[0]) != case["alpha"]:
+        chk.fail("path:alpha-start", f"alphas[0]={alphas[0]} but the model's alpha was {case['alpha']}", replay, layer="L3")
+    for t in range(1, T):
+        if not close(alphas[t], alphas[t - 1] * mult):
+            chk.fail("path:alpha-geometric", f"alphas[{t}]={alphas[t]} is not alphas[{t - 1}]*{mult}", replay, layer="L3")
+            break
+    if T == 0:
+        check_zero_steps(chk, case, est, X, y, run, replay)
+
+
 # ------------------------------------------------------------------ the comparison (L2) and the oracle (L3)
 def check_case(chk, case, stream, sig=None, est_xy=None, expect_same_as=None):
     """Run one traced path(), compare it with the model (L2) and check the contract (L3).  Returns the run."""
@@ -434,7 +517,14 @@ def check_case(chk, case, stream, sig=None, est_xy=None, expect_same_as=None):
 
     if init is None or steps is None:
         if outcome in ("returned", "timeout", "UnboundLocalError"):
-            chk.fail("path:trace-shape", f"compute_val_score was not called in the modelled order (outcome {outcome}, {len(ev)} calls)", replay)
+            if outcome == "returned":
+                oracle_without_trace(chk, case, est, X, y, run, replay)
+            if not ev:
+                chk.fail("harness-error:path:recorder-saw-no-compute_val_score-call",
+                         f"the recorder installed at {run.get('recorder_sites')} binding(s) of compute_val_score saw no call although path() ended with "
+                         f"outcome {outcome}: the trace correspondence could not be run (the contract was still checked on the returned tuple)", replay)
+            else:
+                chk.fail("path:trace-shape", f"compute_val_score was not called in the modelled order (outcome {outcome}, {len(ev)} calls)", replay)
         else:
             chk.fail(f"path:raised:{outcome}:{mode}:initial-fit", f"path() raised {outcome}: {run['error']} before the initial validation", replay, layer="L3")
         chk.count(None)
@@ -562,7 +652,8 @@ def check_case(chk, case, stream, sig=None, est_xy=None, expect_same_as=None):
             if last is None or nfeat[s] != last["nsel"] or not close(pens[s], last["pen"]) or not close(geminis[s], last["score"]):
                 chk.fail("path:recorded-not-model-state", f"step {s}: recorded (n={nfeat[s]}, pen={pens[s]}, score={geminis[s]}) is not the state of the model at the end of that step", replay, layer="L3")
                 break
-        final_count = int(est._n_selected_features()) if not restores else None
+        if T == 0:
+            check_zero_steps(chk, case, est, X, y, run, replay)
         if not nan_traced and wn["nan"] == 0:
             lastc = nfeat[-1] if T else init["nsel"]
             if lastc > minf:
@@ -760,7 +851,7 @@ def stream_repr(chk, i, rng):
                  "alpha": float(rng.choice([0.5, 1.0])), "alpha_multiplier": float(rng.choice([1.5, 2.0])), "learning_rate": 0.1})
     est, X, y, pk = build(case)
     ref = check_case(chk, case, "repr", est_xy=(est, X, y, pk))
-    if ref["outcome"] != "returned":
+    if ref["outcome"] != "returned" or ref["final_w"] is None:
         return
     which_arg = ["X", "y"] if y is not None else ["X"]
     for arg in which_arg:
